@@ -71,6 +71,56 @@ var productionPaths = []prodPath{
 	{"var/lib/containerd/io.containerd.metadata.v1.bolt/meta.db", false},
 }
 
+// altLoc is one more location (or spelling of the location) at which an extractor accepts its
+// format, next to the first ones in productionPaths. Like, when set, is the suffix of the
+// fixtures' own names whose content fits there (an .ear is a .jar by another name).
+type altLoc struct {
+	Path string
+	Like string
+}
+
+// altLocations: the other path FORMS the FileRequired functions accept (every directory x file
+// name combination of os/rpm, the other roots of flatpak / homebrew / chrome, every archive
+// extension of java/archive ...). Entries no extractor accepts are dropped when the registry is
+// built. They are kept apart from productionPaths: Prod[0] / Paths[0] stay what they were (C06
+// and the healthy-neighbour pool are built from those).
+var altLocations = []altLoc{
+	{Path: "var/lib/rpm/Packages.db"}, {Path: "usr/lib/sysimage/rpm/Packages"}, {Path: "usr/share/rpm/Packages.db"}, {Path: "usr/share/rpm/rpmdb.sqlite"},
+	{Path: "var/lib/dpkg/status.d/libc6"}, {Path: "var/lib/dpkg/status.d/sub/base-files"},
+	{Path: "snap/firefox/4336/meta/snap.yaml"}, {Path: "snap/core22/current/meta/snap.yaml"},
+	{Path: "var/lib/flatpak/app/org.x.Y/x86_64/stable/0a1b2c/export/share/metainfo/org.x.Y.metainfo.xml"},
+	{Path: "home/u/.local/share/flatpak/app/org.x.Y/current/active/export/share/metainfo/org.x.Y.metainfo.xml"},
+	{Path: "var/lib/pacman/local/zlib-1:1.3.1-2/desc"}, {Path: "var/lib/pacman/local/desc"},
+	{Path: "var/db/pkg/sys-libs/zlib-1.3.1-r1/PF"}, {Path: "var/db/pkg/PF"},
+	{Path: "usr/lib/modules/6.8.0-45-generic/updates/dkms/y.ko"}, {Path: "x.ko"},
+	{Path: "boot/efi/EFI/vmlinuz"}, {Path: "boot/vmlinuz-"},
+	{Path: "nix/store/xb4y5iklmklqq0jgq3kqpjz7zzbkzmdz-hello-2.12.1/bin/hello"}, {Path: "nix/store/hello/x"},
+	{Path: "Applications/Utilities/Terminal.app/Contents/Info.plist"}, {Path: "Applications/Info.plist/Contents/Info.plist"},
+	{Path: "opt/homebrew/Cellar/foo/1.0/INSTALL_RECEIPT.json"}, {Path: "opt/homebrew/Caskroom/foo/1.0/foo.wrapper.sh"},
+	{Path: "Users/u/homebrew/Caskroom/foo/1.0/source.properties"}, {Path: "opt/homebrew/Caskroom/foo/1.0/foo.app"},
+	{Path: "home/u/.config/chromium/Default/Extensions/ghbmnnjooekpmoecnnnilnnbdlolhkhi/2.1/manifest.json"},
+	{Path: "home/u/.config/google-chrome-beta/Default/Extensions/ghbmnnjooekpmoecnnnilnnbdlolhkhi/1.0_0/manifest.json"},
+	{Path: "root/.vscode-server/extensions/extensions.json"}, {Path: "home/u/.vscode-oss/extensions/extensions.json"},
+	{Path: "wp-content/plugins/p.php"}, {Path: "srv/site/wp-content/plugins/a/b/c.php"},
+	{Path: "app.ear", Like: ".jar"}, {Path: "java.base.jmod", Like: ".jar"}, {Path: "app.par", Like: ".jar"}, {Path: "app.sar", Like: ".jar"},
+	{Path: "plugins/git.jpi", Like: ".jar"}, {Path: "plugins/git.hpi", Like: ".jar"}, {Path: "app.lpkg", Like: ".jar"}, {Path: "lib/nifi.nar", Like: ".jar"},
+	{Path: "srv/lib/dep.jar", Like: ".war"}, {Path: "APP.JAR", Like: ".jar"},
+	{Path: "requirements-dev.txt"}, {Path: "reqs/dev-requirements.txt"}, {Path: "requirements/requirements.txt"},
+	{Path: "usr/lib/ruby/gems/3.2.0/specifications/foo-1.0.gemspec"},
+	{Path: "opt/app/bom.json"}, {Path: "sbom/app.cdx.json"}, {Path: "opt/app/bom.xml"}, {Path: "sbom/app.cdx.xml"}, {Path: "x.BOM.JSON", Like: "bom.json"},
+	{Path: "sbom/app.spdx.json"}, {Path: "sbom/app.spdx"}, {Path: "sbom/app.spdx.yml"}, {Path: "sbom/app.spdx.rdf"}, {Path: "sbom/app.spdx.rdf.xml"},
+	{Path: "usr/lib/python3/dist-packages/q-2.0.dist-info/METADATA"}, {Path: "opt/venv/lib/python3.12/site-packages/q-2.0.egg-info/PKG-INFO"},
+	{Path: "q-2.0.egg-info"}, {Path: "q-2.0.egg"}, {Path: "EGG-INFO/PKG-INFO"},
+	{Path: "node_modules/a/package.json"}, {Path: "node_modules/a/node_modules/b/package.json"},
+	{Path: "gradle/dependency-locks/gradle.lockfile"}, {Path: "app/gradle/verification-metadata.xml"},
+	{Path: "sub/dir/go.mod"}, {Path: "sub/pom.xml"}, {Path: "sub/Cargo.lock"}, {Path: "sub/yarn.lock"}, {Path: "sub/package-lock.json"},
+	{Path: "sub/Gemfile.lock"}, {Path: "gems.locked"}, {Path: "sub/composer.lock"}, {Path: "sub/poetry.lock"}, {Path: "sub/Pipfile.lock"},
+	{Path: "sub/pnpm-lock.yaml"}, {Path: "sub/bun.lock"}, {Path: "sub/uv.lock"}, {Path: "sub/pdm.lock"}, {Path: "sub/setup.py"},
+	{Path: "sub/mix.lock"}, {Path: "sub/pubspec.lock"}, {Path: "sub/conan.lock"}, {Path: "sub/renv.lock"}, {Path: "sub/Package.resolved"},
+	{Path: "sub/Podfile.lock"}, {Path: "sub/Cargo.toml"}, {Path: "sub/stack.yaml.lock"}, {Path: "sub/cabal.project.freeze"},
+	{Path: "sub/packages.config"}, {Path: "sub/packages.lock.json"}, {Path: "sub/x.deps.json"},
+}
+
 // fakeInfo is the FileInfo handed to FileRequired probes.
 type fakeInfo struct {
 	name string
@@ -104,11 +154,15 @@ type fixture struct {
 
 // extInfo describes one built-in extractor for the generators.
 type extInfo struct {
-	Name     string
-	New      func() filesystem.Extractor
-	Req      plugin.Capabilities
-	PkgDir   string // repository-relative package directory
-	Prod     []prodPath
+	Name   string
+	New    func() filesystem.Extractor
+	Req    plugin.Capabilities
+	PkgDir string // repository-relative package directory
+	Prod   []prodPath
+	// Alt: further accepted locations (altLocations), never executable-only ones.
+	Alt []altLoc
+	// OSRel: the extractor's package consults os-release (its sources call package osrelease).
+	OSRel    bool
 	Fixtures []fixture
 	Zip      bool // fixtures include zip archives (jar / egg)
 }
@@ -207,6 +261,21 @@ func buildRegistry() {
 			}
 			ei.Prod = only
 		}
+		// further accepted locations: only for extractors that accept their format at a few
+		// places (not for those that take every executable)
+		if !(len(ei.Prod) > 0 && ei.Prod[len(ei.Prod)-1].Exec) {
+			have := map[string]bool{}
+			for _, pp := range ei.Prod {
+				have[pp.Path] = true
+			}
+			for _, a := range altLocations {
+				if !have[a.Path] && required(newFn, a.Path, 100, false) {
+					have[a.Path] = true
+					ei.Alt = append(ei.Alt, a)
+				}
+			}
+		}
+		ei.OSRel = readsOSRelease(filepath.Join(root, ei.PkgDir))
 		td := filepath.Join(root, ei.PkgDir, "testdata")
 		_ = filepath.WalkDir(td, func(p string, d fs.DirEntry, err error) error {
 			if err != nil || d.IsDir() {
@@ -249,6 +318,14 @@ func buildRegistry() {
 			if len(fx.Paths) == 0 {
 				return nil
 			}
+			// the other accepted locations come after the paths above (Paths[0] is unchanged)
+			for _, a := range ei.Alt {
+				fits := fx.Own == "" || (filepath.Ext(fx.Own) != "" && filepath.Ext(fx.Own) == filepath.Ext(a.Path)) ||
+					(a.Like != "" && strings.HasSuffix(strings.ToLower(fx.Own), a.Like))
+				if fits && a.Path != fx.Own && required(newFn, a.Path, info.Size(), false) {
+					fx.Paths = append(fx.Paths, a.Path)
+				}
+			}
 			if b, err := os.ReadFile(p); err == nil && len(b) > 4 && string(b[:2]) == "PK" {
 				ei.Zip = true
 			}
@@ -259,6 +336,48 @@ func buildRegistry() {
 		regList = append(regList, ei)
 		regMap[ei.Name] = ei
 	}
+}
+
+// readsOSRelease reports whether the non-test sources of a package directory use package
+// osrelease (dpkg, apk, rpm, cos, snap, flatpak, pacman, portage, nix, kernel module / vmlinuz).
+func readsOSRelease(dir string) bool {
+	ents, err := os.ReadDir(dir)
+	if err != nil {
+		return false
+	}
+	for _, de := range ents {
+		n := de.Name()
+		if de.IsDir() || !strings.HasSuffix(n, ".go") || strings.HasSuffix(n, "_test.go") {
+			continue
+		}
+		if b, err := os.ReadFile(filepath.Join(dir, n)); err == nil && strings.Contains(string(b), "osrelease.") {
+			return true
+		}
+	}
+	return false
+}
+
+// locations lists the known places at which the extractor accepts its format: the production
+// paths, then the further accepted locations.
+func (e *extInfo) locations() []string {
+	var out []string
+	for _, p := range e.Prod {
+		out = append(out, p.Path)
+	}
+	for _, a := range e.Alt {
+		out = append(out, a.Path)
+	}
+	return out
+}
+
+// locIndex is the position of path in locations(), -1 for a fixture's own path under testdata.
+func (e *extInfo) locIndex(path string) int {
+	for i, p := range e.locations() {
+		if p == path {
+			return i
+		}
+	}
+	return -1
 }
 
 // anyPath returns some path the extractor requires ("" when none is known).
